@@ -301,7 +301,7 @@ def run_c34(ctx):
     schemes, hosts, pcs = ["http", "https"], ["h1", "h2"], ["std", "alt"]
     statuses = ctx.pick([302, 307, 308], [301, 302, 303, 307, 308])
     hops = 3
-    res = tlc.run("Redirect", cfg_text(schemes, hosts, pcs, ctx.pick([302, 307], statuses), hops), spec_dir=SPEC_DIR, tag="c34mc")
+    res = tlc.run("Redirect", cfg_text(schemes, hosts, pcs, ctx.pick([302, 307], statuses), hops), spec_dir=SPEC_DIR, tag="c34mc", timeout=6 * 3600)
     ctx.add_model(res, "Redirect", {"Schemes": schemes, "Hosts": hosts, "PortClasses": pcs, "MaxHops": hops})
     if not res.ok:
         ctx.diverge(Divergence("C34", "model", res.error_name or res.error, "Redirect", "specification property violated in the model",
@@ -315,7 +315,7 @@ def run_c34(ctx):
     dot = work + "/one.dot"
     res = tlc.run("Redirect", cfg_text(schemes, hosts, pcs, ctx.pick([307], statuses), 1, props=False,
                                        startkinds=ctx.pick(("start",), ("none", "start"))), spec_dir=SPEC_DIR,
-                  dump_dot=dot, tag="c34g", coverage=False)
+                  dump_dot=dot, tag="c34g", coverage=False, timeout=6 * 3600)
     ctx.add_model(res, "Redirect-graph-1hop", {"MaxHops": 1})
     g = graph.load_dot(dot)
     paths = graph.edge_cover(g, max_len=6)
@@ -330,7 +330,7 @@ def run_c34(ctx):
     os.makedirs(work + "/sim")
     res = tlc.run("Redirect", cfg_text(schemes, hosts, pcs, statuses, hops), spec_dir=SPEC_DIR,
                   simulate={"num": max(1, nsim // env.NCPU), "depth": 7, "file": prefix}, seed=ctx.seed + 1, deadlock=False,
-                  tag="c34sim")
+                  tag="c34sim", timeout=6 * 3600)
     ctx.add_model(res, "Redirect-simulate", {"behaviours": nsim, "depth": 7, "Statuses": statuses})
     if not res.ok:
         ctx.diverge(Divergence("C34", "model", res.error_name or res.error, "Redirect", "specification property violated in simulation",
